@@ -268,3 +268,6 @@ fn test_strict_partial_ord() {
         }
     }
 }
+
+#[cfg(kani)]
+pub(crate) mod verif_kani;
